@@ -12,7 +12,7 @@ ID = 'C15'
 CASE_TYPE = 'C15.case'
 EXTRA_IMPORTS = 'From PJ Require Import Model.Registry.\n'
 RULE = ('registration histories of 1..3 (quick) / 1..5 (thorough) operations over {add, add with explicit name, add_methods(Method), '
-        'add_methods(plain function), view with / without prefix, merge} on registries with prefix in {none, "", "a", "a.b"}, merged up to '
+        'add_methods(plain function), view with / without prefix (a fresh view class or one already registered elsewhere in the history), merge} on registries with prefix in {none, "", "a", "a.b"}, merged up to '
         '3 levels deep, attached to either dispatcher (add_methods(registry) / add / view); small name pools so that collisions and '
         're-registrations occur; probed by dispatching a request for every registered name, every name one prefix segment away, the bare '
         'function and member names, private and non-callable member names. distinct = distinct (history, dispatcher kind); non-trivial = '
@@ -45,11 +45,17 @@ def rand_registry(rnd, depth, maxops, counter):
         elif k == 'plain':
             ops.append(['plain', fid, rnd.choice(FNAMES)])
         elif k == 'view':
-            ms = []
-            for name, callable_ in rnd.sample(MEMBERS, rnd.randint(1, 4)):
-                ms.append([name, callable_, counter[0]])
-                counter[0] += 1
-            ops.append(['view', rnd.choice(VPREFIXES), sorted(ms)])
+            if len(counter) > 1 and counter[1] and rnd.random() < 0.4:
+                ms = rnd.choice(counter[1])        # the SAME view class registered once more (another prefix / registry)
+            else:
+                ms = []
+                for name, callable_ in rnd.sample(MEMBERS, rnd.randint(1, 4)):
+                    ms.append([name, callable_, counter[0]])
+                    counter[0] += 1
+                ms = sorted(ms)
+                if len(counter) > 1:
+                    counter[1].append(ms)
+            ops.append(['view', rnd.choice(VPREFIXES), ms])
         else:
             ops.append(['merge', rand_registry(rnd, depth - 1, maxops, counter)])
     return [rnd.choice(PREFIXES), ops]
@@ -60,7 +66,7 @@ def generate(seed, tier):
     cases = []
     n = 900 if tier == 'quick' else 9000
     for _ in range(n):
-        counter = [0]
+        counter = [0, []]       # next function id; the member lists of the view classes created so far
         maxops = rnd.choice([1, 2, 3]) if tier == 'quick' else rnd.choice([2, 3, 4, 5])
         top_ops = []
         for _ in range(rnd.randint(1, maxops)):
@@ -73,9 +79,12 @@ def generate(seed, tier):
                 top_ops.append(['add', fid, rnd.choice(FNAMES), rnd.choice(XNAMES)])
             elif k == 'method':
                 top_ops.append(['method', fid, rnd.choice(FNAMES), rnd.choice(XNAMES)])
+            elif counter[1] and rnd.random() < 0.4:
+                top_ops.append(['view', None, rnd.choice(counter[1])])
             else:
                 ms = [[name, c, counter[0] + i] for i, (name, c) in enumerate(rnd.sample(MEMBERS, rnd.randint(1, 4)))]
                 counter[0] += len(ms)
+                counter[1].append(sorted(ms))
                 top_ops.append(['view', None, sorted(ms)])
         cases.append({'hist': [None, top_ops], 'async': rnd.random() < 0.5})
     return cases
@@ -87,7 +96,18 @@ def mkfn(fid, name, is_async):
     return ns[name]
 
 
+_views = {}
+
+
 def mkview(members, is_async):
+    # one class object per distinct member list within an observation: a repeated list re-registers the same class
+    key = json.dumps([members, is_async])
+    if key not in _views:
+        _views[key] = mkview_new(members, is_async)
+    return _views[key]
+
+
+def mkview_new(members, is_async):
     body = ''
     for name, callable_, fid in members:
         if callable_:
@@ -129,6 +149,7 @@ def apply_ops(target, ops, is_async, top=False):
 
 def observe(case):
     is_async = case['async']
+    _views.clear()
     disp = (AsyncDispatcher if is_async else Dispatcher)()
     apply_ops(disp, case['hist'][1], is_async, top=True)
     keys = sorted(disp.registry.keys())
